@@ -462,6 +462,86 @@ theorem cuboid_sum_rule (T : NDA (List Rat)) (m : Mesh) (M : Rat)
     rw [if_neg (by omega)] at this
     linear_combination M * this
 
+/-- For a cube (equal counts; a tensor with the cyclic symmetry `N_yy(j₀,j₁,j₂) = N_xx(j₁,j₂,j₀)`,
+`N_zz(j₀,j₁,j₂) = N_xx(j₂,j₀,j₁)`, which `_N` has for cubic cells, see `demag_cubic_symmetry`)
+each of the three summed (hence mean) demagnetising field components is one third of the total:
+`Σ_cells H_a = −M·n³/3`, i.e. mean `−M/3` each. -/
+theorem cube_each_third (T : NDA (List Rat)) (m : Mesh) (M : Rat) (n : Nat)
+    (hn0 : m.nAt 0 = n) (hn1 : m.nAt 1 = n) (hn2 : m.nAt 2 = n)
+    (hT : ∀ j0 j1 j2, (T.get [j0, j1, j2]).getD 0 0 + (T.get [j0, j1, j2]).getD 1 0 + (T.get [j0, j1, j2]).getD 2 0
+      = if j0 = m.nAt 0 - 1 ∧ j1 = m.nAt 1 - 1 ∧ j2 = m.nAt 2 - 1 then -1 else 0)
+    (hsym : ∀ j0 j1 j2, (T.get [j0, j1, j2]).getD 1 0 = (T.get [j1, j2, j0]).getD 0 0 ∧
+      (T.get [j0, j1, j2]).getD 2 0 = (T.get [j2, j0, j1]).getD 0 0)
+    (a : Nat) (ha : a < 3) :
+    sum3 n n n (fun q0 q1 q2 => linConv T (uniF m M a) a [q0, q1, q2]) = -M * (n : Rat) ^ 3 / 3 := by
+  -- each component as a double sum of the xx entries
+  have key : ∀ a, a < 3 → ∀ q0 q1 q2, linConv T (uniF m M a) a [q0, q1, q2]
+      = sum3 n n n fun r0 r1 r2 =>
+          (T.get [q0 + (n - 1) - r0, q1 + (n - 1) - r1, q2 + (n - 1) - r2]).getD a 0 * M := by
+    intro a ha q0 q1 q2
+    unfold linConv
+    simp only [sumTo, uniF, NDA.const, List.getD_cons_zero, List.getD_cons_succ, hn0, hn1, hn2]
+    have e : ∀ b, b < 3 → (tab 3 fun b => if b = a then M else (0 : Rat)).getD b 0 = if b = a then M else 0 :=
+      fun b hb => getD_tab _ _ _ _ hb
+    rcases (by omega : a = 0 ∨ a = 1 ∨ a = 2) with rfl | rfl | rfl
+    · simp only [e 0 (by omega), e 1 (by omega), e 2 (by omega), symIdx]
+      simp [sum3, sumTo_zero]
+    · simp only [e 0 (by omega), e 1 (by omega), e 2 (by omega), symIdx]
+      simp [sum3, sumTo_zero]
+    · simp only [e 0 (by omega), e 1 (by omega), e 2 (by omega), symIdx]
+      simp [sum3, sumTo_zero]
+  let W : Nat → Nat → Nat → Nat → Nat → Nat → Rat := fun q0 q1 q2 r0 r1 r2 =>
+    (T.get [q0 + (n - 1) - r0, q1 + (n - 1) - r1, q2 + (n - 1) - r2]).getD 0 0 * M
+  let S : Nat → Rat := fun a => sum3 n n n (fun q0 q1 q2 => linConv T (uniF m M a) a [q0, q1, q2])
+  have hS0 : S 0 = sum3 n n n (fun q0 q1 q2 => sum3 n n n (fun r0 r1 r2 => W q0 q1 q2 r0 r1 r2)) :=
+    sum3_congr n n n _ _ (fun q0 q1 q2 _ _ _ => key 0 (by omega) q0 q1 q2)
+  have hS1 : S 1 = S 0 := by
+    rw [hS0]
+    have : S 1 = sum3 n n n (fun q0 q1 q2 => sum3 n n n (fun r0 r1 r2 => W q1 q2 q0 r1 r2 r0)) :=
+      sum3_congr n n n _ _ (fun q0 q1 q2 _ _ _ => by
+        rw [key 1 (by omega) q0 q1 q2]
+        exact sum3_congr n n n _ _ (fun r0 r1 r2 _ _ _ => by rw [(hsym _ _ _).1]))
+    rw [this]
+    rw [sum3_congr n n n _ (fun q0 q1 q2 => sum3 n n n (fun r0 r1 r2 => W q1 q2 q0 r0 r1 r2))
+      (fun q0 q1 q2 _ _ _ => sum3_rot n (fun r0 r1 r2 => W q1 q2 q0 r0 r1 r2))]
+    exact sum3_rot n (fun q0 q1 q2 => sum3 n n n (fun r0 r1 r2 => W q0 q1 q2 r0 r1 r2))
+  have hS2 : S 2 = S 0 := by
+    rw [hS0]
+    have : S 2 = sum3 n n n (fun q0 q1 q2 => sum3 n n n (fun r0 r1 r2 => W q2 q0 q1 r2 r0 r1)) :=
+      sum3_congr n n n _ _ (fun q0 q1 q2 _ _ _ => by
+        rw [key 2 (by omega) q0 q1 q2]
+        exact sum3_congr n n n _ _ (fun r0 r1 r2 _ _ _ => by rw [(hsym _ _ _).2]))
+    rw [this]
+    -- two cyclic renamings of the inner and of the outer triple
+    rw [sum3_congr n n n _ (fun q0 q1 q2 => sum3 n n n (fun r0 r1 r2 => W q2 q0 q1 r0 r1 r2))
+      (fun q0 q1 q2 _ _ _ => by
+        rw [← sum3_rot n (fun r0 r1 r2 => W q2 q0 q1 r0 r1 r2)]
+        exact sum3_rot n (fun r0 r1 r2 => W q2 q0 q1 r1 r2 r0))]
+    rw [← sum3_rot n (fun q0 q1 q2 => sum3 n n n (fun r0 r1 r2 => W q0 q1 q2 r0 r1 r2))]
+    exact sum3_rot n (fun q0 q1 q2 => sum3 n n n (fun r0 r1 r2 => W q1 q2 q0 r0 r1 r2))
+  have htot : S 0 + S 1 + S 2 = -M * (n : Rat) ^ 3 := by
+    show sum3 n n n _ + sum3 n n n _ + sum3 n n n _ = _
+    rw [← sum3_add, ← sum3_add]
+    rw [sum3_congr n n n _ (fun _ _ _ => -M) (fun q0 q1 q2 h0 h1 h2 =>
+      cuboid_sum_rule T m M hT q0 q1 q2 (by omega) (by omega) (by omega))]
+    rw [sum3_const]; ring
+  have h3 : S a = S 0 := by
+    rcases (by omega : a = 0 ∨ a = 1 ∨ a = 2) with rfl | rfl | rfl
+    · rfl
+    · exact hS1
+    · exact hS2
+  show S a = _
+  rw [h3]
+  rw [hS1, hS2] at htot
+  linarith
+
+/-- `_N` has that cyclic symmetry when the three cell edges are equal (by construction: the yy and
+zz components are the xx formula at cyclically permuted coordinates and cell edges). -/
+theorem demag_cubic_symmetry (pi c x y z : Rat) :
+    (nAll pi c c c x y z).getD 1 [] = (nAll pi c c c y z x).getD 0 [] ∧
+    (nAll pi c c c x y z).getD 2 [] = (nAll pi c c c z x y).getD 0 [] :=
+  ⟨rfl, rfl⟩
+
 /-! ## Refusals -/
 
 /-- Fields of the wrong component or spatial dimension, unknown directions and unknown methods
